@@ -41,6 +41,7 @@ def main() -> int:
                 mods[prop] = importlib.import_module(f"dsim.props.{prop.lower()}")
             mod = mods[prop]
             if cmd["cmd"] == "gen_run":
+                os.environ["VERIF_SEED"] = str(int(cmd["verif_seed"]))     # finite sweeps rotate their start with it
                 seed = base.run_seed(prop, int(cmd["verif_seed"]), int(cmd["index"]))
                 spec = mod.generate(seed, cmd["tier"], int(cmd["index"]))
                 out = base.safe_execute(mod, spec)
